@@ -226,3 +226,100 @@ def unguarded_removes(P, R, rid, modules=('commander', 'strategy', 'context', 'p
                     u.loc(c), '%s calls %s.remove(%s) without the fact `%s in %s` (nor a try/except, nor an iteration '
                     'over %s): KeyError / ValueError when the element is absent' % (u.qual, X, y, y, X, X))
     R.require(n >= 2, 'only %d remove() calls on parameter collections found' % n)
+
+
+def pending_load_definition(P, R, rid):
+    """what counts as "starts already requested there": every command of the application job - CURRENT and PLANNED -
+    that has a target identifier and whose process is still stopped, with the expected_load of its process."""
+    from ..paths import factmap, statements
+    from ..defuse import closed_text
+    u = P.unit('ApplicationStartJobs.get_load_requests')
+    fm = factmap(u)
+    loops = [l for l in own_nodes(u.node) if isinstance(l, ast.For)]
+    iters = ' '.join(closed_text(u, l.iter) for l in loops)
+    ok = 'self.current_jobs' in iters and 'self.planned_jobs' in iters
+    R.check(rid, ok, 'the pending load covers the current AND the planned commands of the job', 'pending|scope', u.loc(),
+            'ApplicationStartJobs.get_load_requests iterates %s: the commands of %s are not counted, so a start already '
+            'assigned to an instance is ignored by the next placement' %
+            (iters or 'nothing', 'self.planned_jobs' if 'self.planned_jobs' not in iters else 'self.current_jobs'))
+    acc = []
+    for l in loops:
+        for st in statements(l):
+            if st is l or isinstance(st, (ast.If, ast.For)):
+                continue
+            if 'expected_load' in ast.unparse(st) or 'expected_load' in closed_text(u, getattr(st, 'value', st)):
+                acc.append((st, l))
+    good = 0
+    for st, l in acc:
+        E = 'each(%s)' % closed_text(u, l.iter)
+        if fm.closed(st) == {(E + '.process.stopped()', True), (E + '.identifier', True)}:
+            good += 1
+    R.check(rid, bool(acc) and good == len(acc), 'a pending start counts when it has a target and its process is still '
+            'stopped', 'pending|filter', u.loc(), 'ApplicationStartJobs.get_load_requests accumulates expected_load under '
+            '%s (needs exactly: process stopped and identifier set)' % [sorted(fm.closed(st)) for st, l in acc])
+
+
+def distribution_candidates(P, R, r4):
+    """SINGLE_INSTANCE / SINGLE_NODE: the selection is made once among the APPLICATION candidates (closed forms)."""
+    from ..paths import factmap, call_text
+    from ..defuse import closed_text
+    si = P.unit('ApplicationStartJobs.distribute_to_single_instance')
+    fm = factmap(si)
+    gi = [c for c in own_nodes(si.node) if isinstance(c, ast.Call) and call_text(c) == 'get_supvisors_instance']
+    # closed forms (sa.defuse): what is compared does not depend on the names of locals and comprehension binders
+    PJ = 'self.planned_jobs.values()'
+    ALL_CMDS = '[each(each(%s)) for _ in %s for _ in each(%s)]' % (PJ, PJ, PJ)
+    upd = [c for c in own_nodes(si.node) if isinstance(c, ast.Call) and isinstance(c.func, ast.Attribute)
+           and c.func.attr == 'update_identifier']
+    sel = closed_text(si, gi[0]) if len(gi) == 1 else '?'
+    ok = len(gi) == 1 and closed_text(si, gi[0].args[2]) == 'self.application.possible_identifiers()' and \
+        closed_text(si, gi[0].args[3]) == 'self.application.get_start_sequence_expected_load()' and \
+        len(upd) == 1 and closed_text(si, upd[0].args[0]) == sel and \
+        closed_text(si, upd[0].func.value) == 'each(%s)' % ALL_CMDS and \
+        any(isinstance(a, ast.Assign) and ast.unparse(a.targets[0]) == 'self.identifiers' and
+            closed_text(si, a.value) == '[%s]' % sel for a in own_nodes(si.node))
+    R.check(r4, ok, 'SINGLE_INSTANCE: one instance able to carry the whole sequence, given to all commands',
+            'distribution|single-instance', si.loc(), 'distribute_to_single_instance does not choose one identifier '
+            'among application.possible_identifiers() for the whole start-sequence load and give it to every command')
+    sn = P.unit('ApplicationStartJobs.distribute_to_single_node')
+    gn = [c for c in own_nodes(sn.node) if isinstance(c, ast.Call) and call_text(c) == 'get_node']
+    asg = [closed_text(sn, a.value) for a in own_nodes(sn.node) if isinstance(a, ast.Assign)
+           and ast.unparse(a.targets[0]) == 'self.identifiers']
+    node = closed_text(sn, gn[0]) if len(gn) == 1 else '?'
+    CAND = 'self.application.possible_node_identifiers()'
+    ok = len(gn) == 1 and closed_text(sn, gn[0].args[2]) == CAND and \
+        closed_text(sn, gn[0].args[3]) == 'self.application.get_start_sequence_expected_load()' and \
+        asg == ['[each(%s) for _ in %s if each(%s) in list(self.supvisors.mapper.nodes.get(%s, []))]' %
+                (CAND, CAND, CAND, node)]
+    defs = {'self.identifiers': asg}
+    R.check(r4, ok, 'SINGLE_NODE: the selection is the application candidates that belong to the chosen node',
+            'distribution|single-node', sn.loc(), 'distribute_to_single_node does not restrict self.identifiers to the '
+            'application node candidates of the node chosen by get_node for the whole load (%s)' %
+            {k: defs.get(k) for k in ('self.identifiers',)})
+
+
+def running_definitions(P, R, rid):
+    """"still running" means STARTING, BACKOFF or RUNNING: an application has running processes when ANY of its
+    processes is in RUNNING_STATES (not only in the RUNNING state); the stop plan is built from that."""
+    from ..paths import returns, ctext
+    from ..defuse import comp_view, cond_atoms
+    from .. import supstates
+    u = P.unit('ApplicationStatus.has_running_processes')
+    rs = [v for v, f, n in returns(u) if v is not None]
+    ok = False
+    if len(rs) == 1 and isinstance(rs[0], ast.Call) and ast.unparse(rs[0].func) == 'any' and len(rs[0].args) == 1:
+        cv = comp_view(u, rs[0].args[0])
+        if cv and cv['iters'] == ['self.processes.values()'] and isinstance(cv['elt'], str):
+            E = 'each(self.processes.values())'
+            at = cond_atoms([ast.parse(cv['elt'], mode='eval').body]) | cv['conds']
+            ok = at in ({(E + '.running()', True)}, {(E + '.state in RUNNING_STATES', True)})
+    R.check(rid, ok, 'an application has running processes when any process is STARTING, BACKOFF or RUNNING',
+            'running|application', u.loc(), 'ApplicationStatus.has_running_processes is %s: an application whose '
+            'processes are all STARTING or BACKOFF is considered stopped and is left out of the stop plan' %
+            [ast.unparse(v) for v in rs])
+    pr = P.unit('ProcessStatus.running')
+    rv = [ctext(v) for v, f, n in returns(pr) if v is not None]
+    st = supstates.load()
+    ok = rv == ['self.state in RUNNING_STATES'] and sorted(st['RUNNING_STATES']) == ['BACKOFF', 'RUNNING', 'STARTING']
+    R.check(rid, ok, 'ProcessStatus.running() is state in RUNNING_STATES (STARTING, BACKOFF, RUNNING)', 'running|process',
+            pr.loc(), 'ProcessStatus.running returns %s' % rv)
